@@ -7,19 +7,22 @@
 (*   cbounds, vbounds, pens, ws (weights in halves), lims, caps, pols (1 SHARED / 0 FATPIPE)                         *)
 (*                    parameter alphabets (sequences of integers; -simulate draws from them with repetitions)        *)
 (*   late             1: expand may also be applied to a variable that already went through a solve                  *)
-(*   fam              0 = general mix (NextSim under -simulate); 1 = waiting queues (NextQ under -simulate, C18);        *)
+(*   fam              0 = general mix (SpecSim under -simulate); 1 = waiting queues (SpecQ under -simulate, C18);        *)
 (*                    2 = the exhaustive scope of waiting queues (C18, LmmGen_wake.cfg: abstract states merged by        *)
 (*                    ViewQ, no solve before the end, elements are given to the newest variable only as the resource    *)
-(*                    models do, variables are created before the first resume / free (the order of the waiting lists  *)
+(*                    models do (or to an enabled variable that runs into a full constraint and is staged), variables  *)
+(*                    are created before the first resume / free (the order of the waiting lists                      *)
 (*                    of the code is the order of creation either way), only enabled variables are freed, no suspension *)
 (*                    when susp = 0): the history of every transition that wakes >= 2 staged variables waiting on one   *)
-(*                    constraint is printed (the check appends a solve and replays it)                                   *)
+(*                    constraint is printed, followed by a solve                                                         *)
 (*   susp             0: no vpen(v, 0) is generated (the two recorded deviations of update_variable_penalty)              *)
+(*   bounded          fam = 2: 1 when len cuts the exploration (the remaining length is then part of ViewQ)               *)
 (*   maxw             largest cumulated weight of an element (in halves)                                                  *)
 (*   ff               sequence of k for FastForward (empty: never)                                                   *)
 (*   bases            sequence of base histories (sequences of [op, a, b, c]); the exploration starts after one of   *)
 (*                    them (an empty base = the empty system)                                                        *)
-(* Configurations: LmmGen_hist.cfg (prints every complete history: BFS = all of them, -simulate = random ones),       *)
+(* Configurations: LmmGen_hist.cfg (prints every complete history: BFS = all of them), LmmGen_sim.cfg / LmmGen_simq.cfg *)
+(* (-simulate: random ones, general mix / waiting queues), LmmGen_wake.cfg (fam = 2),                                  *)
 (* LmmMC_ref.cfg (state graph of the abstract system, histories merged by VIEW, invariant RefInv),                   *)
 (* LmmMC_mirror.cfg (same, invariant MirrorComplete on the mirror of the selective-update bookkeeping).              *)
 EXTENDS Lmm, Json, IOUtils
@@ -79,7 +82,11 @@ Do(o) == /\ OpEnabled(s, o)
          /\ \E t \in Post(s, o) :
               LET a == Annot(s, o, t) IN
               /\ s' = t /\ hist' = Append(hist, a)
-              /\ IF Params.fam = 2 /\ a.wake.q >= 2 THEN PrintT(<<"HIST", ToJson(Append(hist, a))>>) ELSE TRUE
+              /\ IF Params.fam = 2 /\ a.wake.q >= 2              \* printed with a final solve (every history ends with one)
+                 THEN LET z  == O("solve", 0, 0, 0)
+                          t2 == CHOOSE x \in Post(t, z) : TRUE IN
+                      PrintT(<<"HIST", ToJson(Append(Append(hist, a), Annot(t, z, t2)))>>)
+                 ELSE TRUE
          /\ left' = left - 1
 
 \* exploration policy of the generator (it restricts which histories are produced, not what the operations mean):
@@ -140,6 +147,7 @@ NSolve2  == NSolve
 RCbound2 == RCbound
 NextSim == RCnew \/ RVnew \/ RVnew2 \/ RExpand \/ RExpand2 \/ RExpand3 \/ RFree \/ RVbound \/ RVpen \/ RVpen2 \/ RVpen3
            \/ RCbound \/ RCbound2 \/ NSolve \/ NSolve2 \/ RFf
+SpecSim == Init /\ [][NextSim]_vars
 
 \* The family of waiting queues (Params.fam = 1, C18): the same operations, drawn so that staged variables pile up behind
 \* limited constraints and that the slots they wait for are released while they wait.  Holders: enabled variables that
@@ -147,7 +155,8 @@ NextSim == RCnew \/ RVnew \/ RVnew2 \/ RExpand \/ RExpand2 \/ RExpand3 \/ RFree 
 \* each of its constraints); QBlock expands one of them on a full constraint, so that it is staged itself and gives all
 \* its slots back at once (expand -> disable_var -> on_disabled_var); QResume wakes a suspended variable (it is staged
 \* when one of its constraints is full, whatever the weight of its element there: a cross-traffic element takes no
-\* slot but still waits for one).  Suspensions (vpen 0, the recorded deviations) stay rare.
+\* slot but still waits for one).  Suspensions (vpen 0, the recorded deviations) stay rare.  A holder only leaves
+\* when at least two variables wait for its slot (QRelease, one waiter, is not part of the mix).  LmmGen_simq.cfg.
 Waiting(c) == { v \in Staged(s) : OnC(s, v, c) }
 HoldersQ(n) == { v \in Enabled(s) : \E c \in VCons(s, v) : s.clim[c] >= 0 /\ W(s, v, c) >= 2 /\ Cardinality(Waiting(c)) >= n }
 Holders == HoldersQ(1)
@@ -163,22 +172,35 @@ QJoin    == More /\ ~NeedC /\
             \E v \in Pick(IF Pending # {} THEN Pending ELSE { x \in Vars(s) : s.young[x] \/ Params.late = 1 }) :
             \E c \in Pick({ x \in FullC : OnC(s, v, x) \/ Len(s.el[v]) < s.cap[v] }) :
             \E w \in PickQ(Params.ws) : W(s, v, c) + w <= MaxW /\ Do(O("expand", c, v, w))
-QRelease3 == QRelease2
-QResume2  == QResume
-QJoin2    == QJoin
-QBlock2   == QBlock
-NextQ == RCnew \/ RVnew \/ RVnew2 \/ RExpand \/ QJoin \/ QJoin2 \/ QResume \/ QResume2
-         \/ QRelease \/ QRelease2 \/ QRelease3 \/ QBlock \/ QBlock2 \/ RVpen \/ NSolve
-SpecSim == Init /\ [][IF Params.fam = 1 THEN NextQ ELSE NextSim]_vars
+\* light elements (weight < 1: they take no slot): a suspended variable with a light element on a full constraint is
+\* woken up (it is staged); the holder of a slot is released while a light variable and another one wait for it
+LightOn(v, c) == OnC(s, v, c) /\ W(s, v, c) < 2
+QResumeL  == Free /\ \E v \in Pick({ x \in Asleep : \E c \in FullC : LightOn(x, c) }) :
+                     \E p \in PickQ(Params.pens) : p > 0 /\ Do(O("vpen", v, p, 0))
+HoldersL  == { v \in Enabled(s) : \E c \in VCons(s, v) : s.clim[c] >= 0 /\ W(s, v, c) >= 2 /\
+                                     Cardinality(Waiting(c)) >= 2 /\ \E x \in Waiting(c) : LightOn(x, c) }
+QReleaseL == Free /\ \E v \in Pick(HoldersL) : Do(O("free", v, 0, 0))
+QBlockL   == Free /\ \E v \in Pick({ x \in HoldersL : Len(s.el[x]) < s.cap[x] }) :
+                     \E c \in Pick({ x \in FullC : ~OnC(s, v, x) }) : Do(O("expand", c, v, 2))
+QRelease3 == QReleaseL
+QResume2  == QResumeL
+QBlock2   == QBlockL
+RVnew3 == RVnew
+QRelease4 == QReleaseL
+NextQ == RCnew \/ RVnew \/ RVnew2 \/ RVnew3 \/ RExpand \/ QJoin \/ QResume \/ QResume2
+         \/ QRelease2 \/ QRelease3 \/ QRelease4 \/ QBlock \/ QBlock2 \/ RVpen \/ NSolve
+SpecQ == Init /\ [][NextQ]_vars
 
 \* G: every complete history is printed
 Emit == left = 0 => PrintT(<<"HIST", ToJson(hist)>>)
 
 \* M: the abstract system alone (histories and depth merged)
 ViewS == s
-\* fam = 2: what the concurrency bookkeeping depends on (the order of the elements of a variable is the order in which
-\* var_free releases its constraints)
-ViewQ == <<s.clim, s.alive, s.pen, s.stg, s.cap, s.el>>
+\* fam = 2: what the concurrency bookkeeping and the policy of the generator depend on (the order of the elements of a
+\* variable is the order in which var_free releases its constraints).  With bounded = 0, len is chosen larger than the
+\* diameter: the scope is explored completely, whatever the order in which the workers of TLC reach the states.
+ViewQ == <<s.clim, s.alive, s.pen, s.stg, s.cap, s.el, Building, IF Params.bounded = 1 THEN left ELSE 0>>
+ConcInvS == ConcurrencyOk(s) /\ NoStarvation(s)
 RefInvS == RefInv(s)
 MirrorComplete == ModifiedSetComplete(s)
 =============================================================================
